@@ -489,6 +489,25 @@ pub fn tbl_q_clone_by_type_lookup_names_own_table() {
     core::mem::forget(archetypes);
 }
 
+// Table-level equality on rowless tables: a table is not equal to one holding the same archetypes and
+// one more.
+#[kani::proof]
+#[kani::unwind(18)]
+pub fn tbl_q_eq_rowless_count_differs() {
+    let mut one = Archetypes::<RAB>::new();
+    let _ = ident_ptr(one.get_mut_or_insert_new(ident::<RAB>(vec![3])));
+    let mut two = Archetypes::<RAB>::new();
+    let _ = ident_ptr(two.get_mut_or_insert_new(ident::<RAB>(vec![3])));
+    let _ = ident_ptr(two.get_mut_or_insert_new(ident::<RAB>(vec![0])));
+    vassert!(!(one == two), "a table with fewer archetypes is not equal to one with more");
+    kani::cover!(true, "reached end");
+    core::mem::forget(one);
+    core::mem::forget(two);
+}
+
+// Measured: `Archetypes::clone_from` into a table holding one component-less row from a rowless source
+// table does not fit in 20 GB (857 k program steps); stays outside the claim.
+
 // Measured: `Archetypes::eq` between a table of one archetype and a table of two (one row) does not
 // fit in 20 GB (2.9 M program steps).  Table-level equality stays outside the claim (C16 is claimed at
 // the level of `Archetype::component_eq`).
